@@ -463,8 +463,11 @@ def make_world(fs):
     fmt_hdf5 = types.SimpleNamespace(RTDC_HDF5=DS)
 
     class _EI:
-        SlowVideoWarning = UserWarning
-        InitialFrameMissingWarning = UserWarning
+        # distinct classes: the task ignores these two categories, which
+        # must not silence the other warnings of a conversion
+        SlowVideoWarning = type("SlowVideoWarning", (UserWarning,), {})
+        InitialFrameMissingWarning = type("InitialFrameMissingWarning",
+                                          (UserWarning,), {})
     fmt_tdms = types.SimpleNamespace(
         NPTDMS_AVAILABLE=False, event_image=_EI,
         get_tdms_files=lambda p: sorted(
@@ -639,7 +642,7 @@ def cases(tier, seed):
                 out.append(("%s %s distinct stale=%s" % (t, kind, stale),
                             dict(task=t, kind=kind, out="distinct",
                                  stale=stale)))
-        if t in ("split", "join", "compress"):
+        if True:      # every task, incl. tdms2rtdc (its own warnings log)
             for kind in ("raise", "kill"):
                 out.append(("%s %s distinct warnings" % (t, kind),
                             dict(task=t, kind=kind, out="distinct",
@@ -694,9 +697,10 @@ def _replay(case, params, v):
     what = str(v.get("what"))
     if what == "input modified" and p["out"] != "distinct":
         return replay_same_path(p)
-    if p["task"] in ("tdms2rtdc",):
+    if p["task"] in ("tdms2rtdc",) and (
+            p.get("folder") or what.startswith("exception:")):
         return {"reproduced": False, "key": "no-replay",
-                "detail": "tdms fixtures cannot be produced offline: %r" %
+                "detail": "tdms replay: single-file fault cases only: %r" %
                           (v.get("detail"),)}
     if what.startswith("exception:"):
         return replay_plain(p, what, str(v.get("detail")))
@@ -829,7 +833,23 @@ def replay_fault(p, fault_at, what, detail):
     try:
         with tempfile.TemporaryDirectory(prefix="verif_c10_") as td, quiet():
             pins = [os.path.join(td, "in%d.rtdc" % i) for i in range(3)]
+            if p["task"] == "tdms2rtdc":
+                # the repository's own .tdms fixture (fluorescence + image;
+                # converting it without skipping the initial empty image
+                # makes dclab record warnings)
+                import zipfile
+                from vf.common import REPO
+                zdir = os.path.join(td, "tdms")
+                with zipfile.ZipFile(os.path.join(
+                        str(REPO), "tests", "data",
+                        "fmt-tdms_fl-image_2016.zip")) as z:
+                    z.extractall(zdir)
+                pins = sorted(
+                    os.path.join(r, f) for r, _, fs_ in os.walk(zdir)
+                    for f in fs_ if f.endswith(".tdms"))[:1]
             for i, x in enumerate(pins):
+                if p["task"] == "tdms2rtdc":
+                    break
                 if p.get("compressed"):
                     # the product of an earlier dclab-compress run
                     import dclab.cli as cli
@@ -848,7 +868,10 @@ def replay_fault(p, fault_at, what, detail):
                         "detail": "reference run failed"}
             # partial outputs can only arise late (after a rename or a
             # direct write to the output path): scan backwards
-            for n in range(nops, 0, -1):
+            # (a .tdms conversion takes seconds and performs hundreds of
+            # write-like operations: only the last 40 injection points)
+            first = max(0, nops - 40) if p["task"] == "tdms2rtdc" else 0
+            for n in range(nops, first, -1):
                 for kind in ("raise", "kill"):
                     d = os.path.join(td, "%s%d" % (kind, n))
                     os.mkdir(d)
@@ -888,7 +911,9 @@ def _signature(p, d):
             with h5py.File(os.path.join(d, fn), "r") as h:
                 ev = h["events"]
                 import re
-                sig[fn] = (sorted(ev.keys()), int(ev["deform"].shape[0]),
+                ref = "deform" if "deform" in ev else sorted(
+                    k for k in ev if hasattr(ev[k], "shape"))[0]
+                sig[fn] = (sorted(ev.keys()), int(ev[ref].shape[0]),
                            sorted(re.sub(r"_\d{4}-\d{2}-\d{2}_[\d.]+", "",
                                          k) for k in h.get("logs", {})),
                            int(h.attrs.get("experiment:event count", -1)))
@@ -942,6 +967,10 @@ def _child(ctx, p, pins, outdir, fault_at, kind):
                 cli.split(path_in=pathlib.Path(pins[0]),
                           path_out=pathlib.Path(outdir),
                           split_events=p.get("split_events", 2))
+            elif t == "tdms2rtdc":
+                cli.tdms2rtdc(path_tdms=pathlib.Path(pins[0]),
+                              path_rtdc=pathlib.Path(out),
+                              skip_initial_empty_image=not p.get("warn"))
             else:
                 getattr(cli, t)(path_in=pins[0], path_out=out)
         except BaseException:
